@@ -12,10 +12,23 @@ package glf
 //@   loop#1 invariant forall p int, q int :: 0 <= p && p < i && 0 <= q && q < len(b) ==> a[p] != b[q]
 //@   loop#1 invariant forall q int :: 0 <= q && q <= rangeindex ==> a[i] != b[q]
 
-// difference(ours, others...) is the set difference. Its inductive step (membership in an
-// appended slice, under a nested quantifier) is outside what the solvers discharge:
-// TRUSTED contract, backed by a bounded exhaustive stand-in (harness/glf).
-//@ spec opaque inAny(os [][]string, n int, x string) bool = exists p int :: 0 <= p && p < n && member(os[p], x)
-//@ func difference props=C14 trusted modifies=heap_string,heap___string
-//@   ensures forall x string :: member(result, x) <==> old(member(ours, x) && !inAny(others, len(others), x))
-//@   ensures result == nil || !old(alloc(result))
+// difference(ours, others...) is the set difference: an element of the result
+// is an element of ours that occurs in none of the others, and every such
+// element of ours is in the result.
+//@ func difference props=C14 writes=fresh
+//@   requires forall p int :: 0 <= p && p < len(others) ==> len(others[p]) == 0 || alloc(others[p])
+//@   ensures [fresh] cap(result) == 0 || !old(alloc(result))
+//@   ensures [sound] forall k int :: 0 <= k && k < len(result) ==> (exists i int :: 0 <= i && i < len(ours) && old(ours[i]) == result[k]) && (forall p int, q int :: 0 <= p && p < len(others) && 0 <= q && q < len(old(others[p])) ==> old(others[p][q]) != result[k])
+//@   ensures [complete] forall i int :: 0 <= i && i < len(ours) && (forall p int, q int :: 0 <= p && p < len(others) && 0 <= q && q < len(old(others[p])) ==> old(others[p][q]) != old(ours[i])) ==> (exists k int :: 0 <= k && k < len(result) && result[k] == old(ours[i]))
+//@   loop#0 invariant forall x string :: has(uniqueOthers, x) ==> (exists p int, q int witness i, rangeindex_1 + 1 :: 0 <= p && p <= rangeindex && 0 <= q && q < len(others[p]) && others[p][q] == x)
+//@   loop#0 invariant forall p int, q int :: 0 <= p && p <= rangeindex && 0 <= q && q < len(others[p]) ==> has(uniqueOthers, others[p][q])
+//@   loop#1 invariant forall x string :: has(uniqueOthers, x) ==> (exists p int, q int witness i, rangeindex :: 0 <= p && p <= i && 0 <= q && q < len(others[p]) && (p < i || q <= rangeindex) && others[p][q] == x)
+//@   loop#1 invariant forall p int, q int :: 0 <= p && p < i && 0 <= q && q < len(others[p]) ==> has(uniqueOthers, others[p][q])
+//@   loop#1 invariant forall q int :: 0 <= q && q <= rangeindex ==> has(uniqueOthers, others[i][q])
+//@   loop#2 invariant cap(res) == 0 || !old(alloc(res))
+//@   loop#2 invariant forall i0 int :: 0 <= i0 && i0 < len(ours) ==> ours[i0] == old(ours[i0])
+//@   loop#2 invariant forall p int, q int :: 0 <= p && p < len(others) && 0 <= q && q < len(others[p]) ==> others[p][q] == old(others[p][q])
+//@   loop#2 invariant forall x string :: has(uniqueOthers, x) ==> (exists p int, q int :: 0 <= p && p < len(others) && 0 <= q && q < len(others[p]) && others[p][q] == x)
+//@   loop#2 invariant forall p int, q int :: 0 <= p && p < len(others) && 0 <= q && q < len(others[p]) ==> has(uniqueOthers, others[p][q])
+//@   loop#2 invariant forall k int :: 0 <= k && k < len(res) ==> !has(uniqueOthers, res[k]) && (exists i0 int witness rangeindex :: 0 <= i0 && i0 <= rangeindex && ours[i0] == res[k])
+//@   loop#2 invariant forall i0 int :: 0 <= i0 && i0 <= rangeindex && !has(uniqueOthers, ours[i0]) ==> (exists k int witness len(res) - 1 :: 0 <= k && k < len(res) && res[k] == ours[i0])
